@@ -10,6 +10,7 @@ import (
 	"net/http"
 	"os"
 	"os/exec"
+	"sort"
 	"strings"
 	"syscall"
 	"testing"
@@ -32,6 +33,11 @@ type APIReq struct {
 type APICase struct {
 	Cfg  APIConfig `json:"cfg"`
 	Reqs []APIReq  `json:"reqs"`
+	// Storm: after the sequence, Workers goroutines send these requests
+	// concurrently, Rounds times each (each worker starts at another position).
+	Storm   []APIReq `json:"storm,omitempty"`
+	Workers int      `json:"workers,omitempty"`
+	Rounds  int      `json:"rounds,omitempty"`
 }
 
 type routeSpec struct {
@@ -319,6 +325,45 @@ func runAPICase(ac APICase) (*Fail, error) {
 		resp.Body.Close()
 		return resp.StatusCode, nil
 	}
+	// alive: both APIs answer, no handler panicked, every lock can be obtained
+	alive := func(sigBase, what string) (*Fail, error) {
+	// liveness of both APIs
+	if code, err := get("http://" + ch.ctrl + "/v1/volumes"); err != nil || code != 200 {
+		if dead, how := ch.exited(); dead {
+			return fail(sigBase+"|process-exit", what+"\nthe API process terminated: "+how+"\n"+tailStr(ch.errb.String(), 1500), "C14"), nil
+		}
+		return fail(sigBase+"|controller-api-wedged", what+fmt.Sprintf("\nafterwards GET /v1/volumes on the controller: code=%d err=%v", code, err), "C14"), nil
+	}
+	for ni, n := range ch.nodes {
+		if code, err := get("http://" + n + "/v1/replicas/1"); err != nil || code != 200 {
+			return fail(sigBase+"|replica-api-wedged", what+fmt.Sprintf("\nafterwards GET /v1/replicas/1 on node %d: code=%d err=%v", ni, code, err), "C14"), nil
+		}
+	}
+	// admin probe: panics, locks
+	var pr apiProbe
+	presp, err := client.Get("http://" + ch.admin + "/probe")
+	if err != nil {
+		if dead, how := ch.exited(); dead {
+			return fail(sigBase+"|process-exit", what+"\nthe API process terminated: "+how, "C14"), nil
+		}
+		return nil, fmt.Errorf("admin probe failed: %v", err)
+	}
+	json.NewDecoder(presp.Body).Decode(&pr)
+	presp.Body.Close()
+	if len(pr.Panics) > 0 {
+		return fail(sigBase+"|handler-panic", what+"\n"+headStr(pr.Panics[0], 1800), "C14"), nil
+	}
+	if !pr.CtrlLock {
+		return fail(sigBase+"|controller-lock-held", what+"\nthe controller lock could not be obtained within 10 s afterwards", "C14"), nil
+	}
+	for ni, ok := range pr.NodeLocks {
+		if !ok {
+			return fail(sigBase+"|replica-lock-held", what+fmt.Sprintf("\nthe server lock of node %d could not be obtained within 10 s afterwards", ni), "C14"), nil
+		}
+	}
+
+		return nil, nil
+	}
 	for i, r := range ac.Reqs {
 		u, body, _ := ch.resolve(r, ch.nodes)
 		req, err := http.NewRequest(r.Method, u, body)
@@ -347,39 +392,8 @@ func runAPICase(ac APICase) (*Fail, error) {
 			time.Sleep(500 * time.Millisecond)
 			return fail(sigBase+"|request-hangs", what+fmt.Sprintf("\nno answer within 20 s: %v\ngoroutines of the API process (filtered):\n%s", err, filterStacks(ch.errb.String())), "C14"), nil
 		}
-		// liveness of both APIs
-		if code, err := get("http://" + ch.ctrl + "/v1/volumes"); err != nil || code != 200 {
-			if dead, how := ch.exited(); dead {
-				return fail(sigBase+"|process-exit", what+"\nthe API process terminated: "+how+"\n"+tailStr(ch.errb.String(), 1500), "C14"), nil
-			}
-			return fail(sigBase+"|controller-api-wedged", what+fmt.Sprintf("\nafterwards GET /v1/volumes on the controller: code=%d err=%v", code, err), "C14"), nil
-		}
-		for ni, n := range ch.nodes {
-			if code, err := get("http://" + n + "/v1/replicas/1"); err != nil || code != 200 {
-				return fail(sigBase+"|replica-api-wedged", what+fmt.Sprintf("\nafterwards GET /v1/replicas/1 on node %d: code=%d err=%v", ni, code, err), "C14"), nil
-			}
-		}
-		// admin probe: panics, locks
-		var pr apiProbe
-		presp, err := client.Get("http://" + ch.admin + "/probe")
-		if err != nil {
-			if dead, how := ch.exited(); dead {
-				return fail(sigBase+"|process-exit", what+"\nthe API process terminated: "+how, "C14"), nil
-			}
-			return nil, fmt.Errorf("admin probe failed: %v", err)
-		}
-		json.NewDecoder(presp.Body).Decode(&pr)
-		presp.Body.Close()
-		if len(pr.Panics) > 0 {
-			return fail(sigBase+"|handler-panic", what+"\n"+headStr(pr.Panics[0], 1800), "C14"), nil
-		}
-		if !pr.CtrlLock {
-			return fail(sigBase+"|controller-lock-held", what+"\nthe controller lock could not be obtained within 10 s afterwards", "C14"), nil
-		}
-		for ni, ok := range pr.NodeLocks {
-			if !ok {
-				return fail(sigBase+"|replica-lock-held", what+fmt.Sprintf("\nthe server lock of node %d could not be obtained within 10 s afterwards", ni), "C14"), nil
-			}
+		if f, err := alive(sigBase, what); f != nil || err != nil {
+			return f, err
 		}
 		// status classes
 		if err == nil {
@@ -393,7 +407,91 @@ func runAPICase(ac APICase) (*Fail, error) {
 			}
 		}
 	}
+	if len(ac.Storm) > 0 && ac.Workers > 0 {
+		type sres struct {
+			idx  int
+			err  error
+			took time.Duration
+		}
+		resc := make(chan sres, ac.Workers*ac.Rounds*len(ac.Storm)+1)
+		done := make(chan struct{})
+		for w := 0; w < ac.Workers; w++ {
+			go func(w int) {
+				defer func() { done <- struct{}{} }()
+				cl := &http.Client{Timeout: 25 * time.Second}
+				for r := 0; r < ac.Rounds; r++ {
+					for k := range ac.Storm {
+						idx := (k + w) % len(ac.Storm)
+						u, body, _ := ch.resolve(ac.Storm[idx], ch.nodes)
+						req, err := http.NewRequest(ac.Storm[idx].Method, u, body)
+						if err != nil {
+							continue
+						}
+						if body != nil {
+							req.Header.Set("Content-Type", "application/json")
+						}
+						t0 := time.Now()
+						resp, err := cl.Do(req)
+						if err == nil {
+							io.Copy(io.Discard, resp.Body)
+							resp.Body.Close()
+						}
+						resc <- sres{idx, err, time.Since(t0)}
+						if err != nil && time.Since(t0) >= 24*time.Second {
+							return // wedged: do not pile up more
+						}
+					}
+				}
+			}(w)
+		}
+		for w := 0; w < ac.Workers; w++ {
+			<-done
+		}
+		close(resc)
+		var rs []string
+		for _, r := range ac.Storm {
+			rs = append(rs, fmt.Sprintf("%s %s %s?action=%s", r.Target, r.Method, r.Path, r.Action))
+		}
+		what := fmt.Sprintf("storm of %d workers x %d rounds over [%s] (state %s/%s RF=%d)", ac.Workers, ac.Rounds, strings.Join(rs, "; "), ac.Cfg.State, ac.Cfg.Extra, ac.Cfg.RF)
+		sigBase := "storm|" + stormSig(ac.Storm)
+		if dead, how := ch.exited(); dead {
+			return fail(sigBase+"|process-exit", what+"\nthe API process terminated: "+how+"\nstderr tail:\n"+tailStr(ch.errb.String(), 1500), "C14"), nil
+		}
+		for r := range resc {
+			if r.err != nil && r.took >= 24*time.Second {
+				syscall.Kill(ch.cmd.Process.Pid, syscall.SIGQUIT)
+				time.Sleep(500 * time.Millisecond)
+				return fail(sigBase+"|request-hangs", what+fmt.Sprintf("\nrequest %s not answered within 25 s: %v\ngoroutines of the API process (filtered):\n%s", rs[r.idx], r.err, filterStacks(ch.errb.String())), "C14"), nil
+			}
+		}
+		if f, err := alive(sigBase, what); f != nil || err != nil {
+			return f, err
+		}
+	}
 	return nil, nil
+}
+
+// stormSig: the routes of a storm (sorted, deduplicated) - input-level facts only.
+func stormSig(rs []APIReq) string {
+	m := map[string]bool{}
+	for _, r := range rs {
+		m[targetKind(r.Target)+" "+r.Route] = true
+	}
+	var out []string
+	for k := range m {
+		out = append(out, k)
+	}
+	sort.Strings(out)
+	return strings.Join(out, ",")
+}
+
+func isCtrlRoute(r APIReq) bool {
+	for _, rs := range ctrlRoutes() {
+		if rs.method+" "+rs.path+"?"+rs.action == r.Route {
+			return true
+		}
+	}
+	return false
 }
 
 func targetKind(t string) string {
@@ -452,6 +550,28 @@ func genAPICase(t *rapid.T) APICase {
 			}
 		}
 	}
+	// a storm of concurrent requests against one target: status reads (which take
+	// the read locks) together with mutating requests (which take the write locks)
+	if rapid.IntRange(0, 9).Draw(t, "storm") < 4 {
+		target := "ctrl"
+		statusPath := "/v1/replicas"
+		if rapid.IntRange(0, 2).Draw(t, "stormnode") > 0 {
+			target = fmt.Sprintf("node%d", rapid.IntRange(0, cfg.RF).Draw(t, "stormtarget"))
+			statusPath = "/v1/replicas/1"
+		}
+		ac.Storm = append(ac.Storm, APIReq{Target: target, Method: "GET", Path: statusPath, Class: "wellformed", Route: "GET " + statusPath + "?"})
+		for k := rapid.IntRange(1, 5).Draw(t, "stormreqs"); k > 0; k-- {
+			r := genAPIReq(t, cfg.RF+1)
+			r.Target = target
+			if (target == "ctrl") != (strings.HasPrefix(r.Route, "GET /v1/volumes") || isCtrlRoute(r)) {
+				// the route belongs to the other API: keep the status read instead
+				r = ac.Storm[0]
+			}
+			ac.Storm = append(ac.Storm, r)
+		}
+		ac.Workers = rapid.IntRange(2, 10).Draw(t, "workers")
+		ac.Rounds = rapid.IntRange(1, 12).Draw(t, "rounds")
+	}
 	// trailing well-formed requests
 	ac.Reqs = append(ac.Reqs,
 		APIReq{Target: "ctrl", Method: "GET", Path: "/v1/replicas", Class: "wellformed", Route: "GET /v1/replicas?"},
@@ -478,6 +598,15 @@ func TestC14(t *testing.T) {
 		labels := []string{"state:" + ac.Cfg.State, "extra:" + ac.Cfg.Extra}
 		for c := range classes {
 			labels = append(labels, "class:"+c)
+		}
+		if len(ac.Storm) > 0 {
+			labels = append(labels, "storm")
+			if strings.HasPrefix(ac.Storm[0].Target, "node") {
+				labels = append(labels, "storm:replica-api")
+			} else {
+				labels = append(labels, "storm:controller-api")
+			}
+			rec.AddExtra("storm_requests", len(ac.Storm)*ac.Workers*ac.Rounds)
 		}
 		rec.Case(ac, nt, labels...)
 		rec.AddExtra("requests", len(ac.Reqs))
